@@ -193,7 +193,7 @@ def _unstake(ctx, prog):
         "MulDiv::checked_mul_div(ctx.accounts.position.staked_value_usd" in part.get("staked_value_usd", "")
     ctx.ob("unstake-amounts:partial-stores", okp, "partial: staked_amount := remaining, staked_value_usd := new value (%s)" % {k: v[:60] for k, v in part.items()}, where=f.where())
     # full exit path must pass through the transfer unless the vault is empty
-    ts = anchor.try_switch_of(f, tc)
+    ts = H.success_edge(f, tc)
     gt0 = [i for i, b in enumerate(f.blocks) if b["t"][0] == "switch" and re.match(r"^\(phi\(.*\) Gt 0\)$", str(f.expr(b["t"][1])))]
     ok = ts is not None and len(gt0) == 1
     if ok:
@@ -208,17 +208,40 @@ def _reward(ctx, prog):
     f = ctx.fn(r"gmsol_liquidity_provider::calculate_gt_reward_amount")
     if not f:
         return
-    raw_re = r"^Option::ok_or(_else)?\(utils::apply_factor\(Option::ok_or(_else)?\(utils::apply_factor\(staked_value_usd, gt_apy_per_sec\), [^()]*(\{\})?\)\?, inv_cost_integral\), [^()]*(\{\})?\)\?$"
+    # raw = apply_factor(apply_factor(value, apy)!, integral)!   (`!` = success payload, however unwrapped)
+    raw_c = r"utils::apply_factor\(utils::apply_factor\(staked_value_usd, gt_apy_per_sec\)!, inv_cost_integral\)!"
+    MAXW = r"^\(u64::MAX as u128\)$"
+    alts = []     # (kind, ok)
+    for bb0, op in H.ok_payload_operands(f):
+        for bb, e in H.phi_defs(f, op):
+            at = bb if bb is not None else bb0
+            facts = H.canon_facts(f, at)
+            c = H.canon(e)
+            if c == "u64::MAX":
+                # saturating fallback: only when the raw value does not fit
+                g = any(o == ">" and re.match("^" + raw_c + "$", a) and b is not None and re.match(MAXW, b) for (o, a, b) in facts) or \
+                    any(s_[1].k == "discr" and re.match(r"^(TryFrom::try_from|TryInto::try_into)\(" + raw_c + r"\)$", H.canon(s_[1].a[0])) and s_[2] == frozenset([1])
+                        for s_ in f.guards(at))
+                alts.append(("max", g))
+            elif e.k == "cast" and re.match("^" + raw_c + "$", H.canon(e.a[0])) and e.a[1] == "u64":
+                g = any(o == "<=" and re.match("^" + raw_c + "$", a) and b is not None and re.match(MAXW, b) for (o, a, b) in facts)
+                alts.append(("cast", g))
+            else:
+                x = H.unwrap_success(e)
+                if x is not None and x.k == "call" and x.a[0] in ("TryFrom::try_from", "TryInto::try_into") and re.match("^" + raw_c + "$", H.canon(x.a[1][0])) \
+                        and f.ret.replace(" ", "").startswith("std::result::Result<u64,"):
+                    alts.append(("try_from", True))   # checked conversion: the payload exists only if the value fits
+                else:
+                    alts.append(("other:" + c[:60], False))
+    kinds = sorted(k for k, _ in alts)
     casts = [c for c in A.cast_sites(f) if c["narrowing"]]
-    ok = len(casts) == 1 and re.match(raw_re, str(casts[0]["e"])) is not None
-    if ok:
-        facts = A.cmp_facts(f, casts[0]["bb"])
-        ok = any(o == "<=" and str(a) == str(casts[0]["e"]) and str(b) == "(u64::MAX as u128)" for (o, a, b) in facts if b is not None)
-    ctx.ob("reward-clamp:narrowing-guarded", ok, "the only narrowing cast (u128 -> u64) is applied to apply_factor(apply_factor(value, apy)?, integral)? under `<= u64::MAX`", where=f.where())
-    oks = [e for bb, k, e in f.exits() if k == "ok"]
-    alts = sorted(str(x) for x in oks[0].a[1][0][1].alts()) if len(oks) == 1 and oks[0].k == "agg" else []
-    ok = len(alts) == 2 and "u64::MAX" in alts and any(a.endswith(" as u64)") and re.match(raw_re, a[1:-8]) for a in alts)
-    ctx.ob("reward-clamp:result", ok, "Ok(raw as u64 | u64::MAX): %s" % [a[-40:] for a in alts], where=f.where())
+    ok_narrow = all(re.match("^" + raw_c + "$", H.canon(c["e"])) and
+                    any(o == "<=" and re.match("^" + raw_c + "$", a) and b is not None and re.match(MAXW, b) for (o, a, b) in H.canon_facts(f, c["bb"])) for c in casts)
+    ctx.ob("reward-clamp:narrowing-guarded", ok_narrow and len(casts) <= 1 and kinds in (["cast", "max"], ["max", "try_from"]),
+           "the raw reward is narrowed to u64 either by the single `as` cast under `raw <= u64::MAX` or by a checked try_from (%d narrowing cast(s); forms %s)" % (len(casts), kinds),
+           where=f.where())
+    ctx.ob("reward-clamp:result", kinds in (["cast", "max"], ["max", "try_from"]) and all(g for _, g in alts),
+           "Ok(narrowed raw) when it fits, Ok(u64::MAX) only when it does not: %s" % alts, where=f.where())
     for bb, k, e in f.exits():
         if k == "ok":
             ctx.ob("reward-clamp:duration", A.has_fact(A.cmp_facts(f, bb), ">=", r"^duration_seconds$", r"^0$"), "Ok only for duration_seconds >= 0", where=f.where())
